@@ -8,13 +8,16 @@ def oracle(chk, good):
     for r in good:
         o = r['obs']
         n += 1
-        tol = float.fromhex(o['tol'])
+        # the matching tolerance and the grounded ends are re-derived here from the coordinates (1/1000 of the shortest segment of the
+        # whole structure; an end within it of the ground plane), not taken from the objects
+        tol = 1e-3 * min(float.fromhex(s_['len']) for g in o['geos'] for s_ in g['segs'])
+        gflags = {g['n']: [bool(o['ground']) and abs(float.fromhex(g.get('s' + k, g[k])[2])) < tol for k in ('p1', 'p2')] for g in o['geos']}
         cur = [complex(float.fromhex(a), float.fromhex(b)) for a, b in o['cur']]
         # junctions by coordinates; expected end current from pulse geometry alone
         ends = []
         for g, b in zip(o['geos'], o['blocks']):
             for e, key in ((0, 'p1'), (1, 'p2')):
-                if g['gnd'][e]:
+                if gflags[g['n']][e]:
                     continue
                 pt = [float.fromhex(v) for v in g.get('s' + key, g[key])]       # the end of the conductor as it is segmented
                 # total of the pulse currents through this wire end, positive along the wire:
@@ -78,6 +81,24 @@ KNOWN_PROBE = dict(f=14.2, media=None, family='probe-first-end-star', tagmode='n
     dict(type='wire', nseg=3, p1=[0, 0, 0], p2=[0, 2.0, 0], r=0.001, tag=None, taper=None),
     dict(type='wire', nseg=3, p1=[0, 0, 0], p2=[0, 0, 2.0], r=0.001, tag=None, taper=None)])
 
+def _w(n, p1, p2, r=0.001):
+    return dict(type='wire', nseg=n, p1=list(map(float, p1)), p2=list(map(float, p2)), r=r, tag=None, taper=None)
+_C, _S = math.cos(math.radians(60)), math.sin(math.radians(60))
+def low_junction_probes():
+    """junctions a few millimetres above a ground plane: above 1/1000 of the structure's shortest segment, below 1/1000 of the
+    segment length of a wire ending there, or below the radius of a thick wire ending there"""
+    out = []
+    for h, L, n in ((0.005, 20.0, 2), (0.01, 30.0, 3), (0.002, 12.0, 2)):
+        out.append([_w(n, [L, 0, 0.5], [0, 0, h]), _w(n, [-L * _C, L * _S, 0.5], [0, 0, h]), _w(n, [-L * _C, -L * _S, 0.5], [0, 0, h]),
+                    _w(10, [0, 0, h], [0, 0, 10 + h])])
+        out.append([_w(n, [L, 0, 1], [0, 0, h]), _w(8, [0, 0, h], [0, 0, 8 + h]), _w(8, [0, 0, 8 + h], [-8, 0, 8 + h])])
+    for up in (True, False):
+        a, b = [0, 0, 0.02], [0, 0, 5.02]
+        tube = _w(10, a, b, 0.025) if up else _w(10, b, a, 0.025)
+        out.append([tube, _w(5, [0, 0, 0.02], [5, 0, 0.02]), _w(5, [0, 0, 0.02], [-5 * _C, 5 * _S, 0.02]), _w(5, [-5 * _C, -5 * _S, 0.02], [0, 0, 0.02])])
+        out.append([_w(5, [0, 0, 0.02], [4, 0, 0.02]), tube])
+    return [dict(f=7.1, media=[], family='probe-low-junction', tagmode='none', sources=[], loads=[], wires=ws) for ws in out]
+
 def run(tier, seed):
     chk = Check('C09', tier, seed)
     chk.rule = ('random wire graphs (chains, stars of up to 5 ends in every first/second-end combination and order, closed loops, with and '
@@ -88,6 +109,7 @@ def run(tier, seed):
     standard_front(chk, 'Props/C09.v', extra_vo=('Model/Topology.v', 'Model/Report.v', 'Proofs/ReportP.v', 'Corr/TopoDriver.v'))
     rng = random.Random(seed)
     cases_extra = [dict(id=10 ** 6, seed=1, spec=KNOWN_PROBE)]
+    cases_extra += [dict(id=10 ** 6 + 1 + k, seed=1, spec=sp) for k, sp in enumerate(low_junction_probes())]
     good, errs = stage_topo.run_junc(chk, rng, 80 if tier == 'quick' else 4000)
     g2, e2 = stage_topo._run_generic(chk, 'topo.junc', cases_extra, 'junc')
     for r in good + g2:
